@@ -1,6 +1,122 @@
-(** C15 — pipelines conserve items, respect lanes, never strand.  Property theorems only. *)
-From Akita Require Import Lib.Base C15.Model.
+(** C15 — pipelines conserve items, respect lanes, never strand.  Property theorems only.
 
-Theorem c15_placeholder : items (new_pipe 1 1) = [].
-Proof. reflexivity. Qed.
-Print Assumptions c15_placeholder.
+    [run false] is the model of the current queueing.Pipeline driven in rounds:
+    some accept attempts (each guarded by CanAccept, with an arbitrary delay),
+    then one Tick whose sink answers the q-th CanPush() of that tick by an
+    arbitrary oracle [r_sink r q].  Width, stage count (>= 1), delays, accept
+    patterns and sink oracles are universally quantified. *)
+From Coq Require Import Permutation.
+From Akita Require Import Lib.Base C15.Model C15.Proofs1 C15.Proofs2 C15.Proofs3 C15.Proofs4 C15.Proofs5.
+
+(** No two records ever occupy the same lane of the same stage; lanes stay
+    below the width and stages below the stage count — in every snapshot of
+    every history, whatever the sink does and whatever the delays are. *)
+Theorem c15_lane_exclusive : forall w n rs, (1 <= n)%nat ->
+  Forall (fun o => NoDup (map slot (b_snap o)) /\
+                   Forall (fun x => p_lane x < w /\ p_stage x < n)%nat (b_snap o))
+         (snd (run false (new_pipe w n) rs)).
+Proof.
+  intros w n rs Hn. pose proof (run_good w n rs [] Hn (proj1 (st_ok_new w n))) as R.
+  unfold new_pipe. destruct (run false (mk_pipe w n []) rs) as [p os].
+  destruct R as [l' [_ [_ [F _]]]]. exact F.
+Qed.
+Print Assumptions c15_lane_exclusive.
+
+(** Conservation: at the end of every history the accepted items are exactly
+    the pushed items plus the items still in the pipeline (as multisets). *)
+Theorem c15_conservation : forall w n rs, (1 <= n)%nat ->
+  let '(p, os) := run false (new_pipe w n) rs in
+  Permutation (all_accepted rs os) (flat_map b_pushed os ++ map p_item (items p)).
+Proof.
+  intros w n rs Hn. pose proof (run_good w n rs [] Hn (proj1 (st_ok_new w n))) as R.
+  unfold new_pipe. destruct (run false (mk_pipe w n []) rs) as [p os].
+  destruct R as [l' [-> [_ [_ P]]]]. exact P.
+Qed.
+Print Assumptions c15_conservation.
+
+(** Exactly once: if the accepted items are pairwise distinct, no item is pushed
+    twice and no pushed item is still in the pipeline. *)
+Theorem c15_exactly_once : forall w n rs, (1 <= n)%nat ->
+  let '(p, os) := run false (new_pipe w n) rs in
+  NoDup (all_accepted rs os) -> NoDup (flat_map b_pushed os ++ map p_item (items p)).
+Proof.
+  intros w n rs Hn. pose proof (c15_conservation w n rs Hn) as C.
+  destruct (run false (new_pipe w n) rs) as [p os]. intro H.
+  eapply Permutation_NoDup; eassumption.
+Qed.
+Print Assumptions c15_exactly_once.
+
+(** Latency: an item accepted with delay d >= 0 in a round from which on the sink
+    has room is pushed by the Tick number (stages - 1) + d counted from that
+    round's own Tick as number 0, i.e. exactly stages + d ticks after acceptance
+    (together with [c15_exactly_once]: in no other tick). *)
+Theorem c15_latency : forall w n pre r post id d, (1 <= n)%nat ->
+  Forall delays_ok pre -> Forall delays_ok (r :: post) -> Forall ready_round (r :: post) ->
+  In (id, d) (r_accepts r) -> NoDup (map fst (r_accepts r)) ->
+  let os := snd (run false (new_pipe w n) (pre ++ r :: post)) in
+  In id (round_accepted r (nth (length pre) os dflt_obs)) ->
+  (n - 1 + Z.to_nat d < S (length post))%nat ->
+  In id (b_pushed (nth (length pre + (n - 1 + Z.to_nat d)) os dflt_obs)).
+Proof. intros w n pre r post id d Hn. apply latency. exact Hn. Qed.
+Print Assumptions c15_latency.
+
+(** Every item eventually leaves when the sink has room, whatever the delay and
+    stage count: from ANY reachable state (arbitrary earlier sink behaviour), a
+    record at stage s with c cycles left is pushed by the tick number
+    (stages - 1 - s) + c of the following ready rounds. *)
+Theorem c15_eventually_leaves : forall w n pre post x, (1 <= n)%nat ->
+  Forall delays_ok pre -> Forall delays_ok post -> Forall ready_round post ->
+  In x (items (fst (run false (new_pipe w n) pre))) -> (rem n x < length post)%nat ->
+  In (p_item x) (b_pushed (nth (length pre + rem n x)
+                               (snd (run false (new_pipe w n) (pre ++ post))) dflt_obs)).
+Proof. intros w n pre post x Hn. apply eventually_leaves. exact Hn. Qed.
+Print Assumptions c15_eventually_leaves.
+
+(** A one-lane pipeline is first-in-first-out: for every stage count, delays and
+    sink behaviour, the sequence of all pushes is a prefix of the sequence of all
+    accepted items (in acceptance order). *)
+Theorem c15_fifo_width1 : forall n rs, (1 <= n)%nat ->
+  let os := snd (run false (new_pipe 1 n) rs) in
+  exists rest, all_accepted rs os = flat_map b_pushed os ++ rest.
+Proof. exact fifo_width1. Qed.
+Print Assumptions c15_fifo_width1.
+
+(** With a ready sink one Tick pushes exactly the due records (last stage, no
+    cycles left) and moves every other record by exactly one step. *)
+Theorem c15_tick_ready_exact : forall w n l sink, (1 <= n)%nat -> good w n l -> dwell_ok l ->
+  (forall i, sink i = true) ->
+  let '(p', out, _) := tick false (mk_pipe w n l) sink in
+  exists l', p' = mk_pipe w n l' /\
+             out = map p_item (filter (is_due n) (rev l)) /\
+             Permutation l' (map adv1 (filter (fun x => negb (is_due n x)) (rev l))).
+Proof. exact tick_ready. Qed.
+Print Assumptions c15_tick_ready_exact.
+
+(** Regression lemma for the code before fix 6f910dbe ([run true]): in a
+    single-stage pipeline an item accepted with delay 2 is never decremented and
+    never leaves (here: 6 ticks with a ready sink), while the current code pushes
+    it in the third tick. *)
+Theorem c15_single_stage_dwell_old_refuted :
+  let rs := mk_round [(7%N, 2%Z)] always_ready :: repeat (mk_round [] always_ready) 5 in
+  flat_map b_pushed (snd (run true (new_pipe 1 1) rs)) = [] /\
+  map p_cyc (items (fst (run true (new_pipe 1 1) rs))) = [2%Z] /\
+  map b_pushed (snd (run false (new_pipe 1 1) rs)) = [[]; []; [7%N]; []; []; []].
+Proof. vm_compute. repeat split. Qed.
+Print Assumptions c15_single_stage_dwell_old_refuted.
+
+(** Non-vacuity: a 3-stage, 2-lane pipeline with mixed delays, a refused third
+    attempt, a blocked sink in rounds 3-4 and room afterwards. *)
+Example c15_nonvacuous :
+  let blocked := mk_round [] (fun _ => false) in
+  let rdy acc := mk_round acc always_ready in
+  let rs := [rdy [(1%N, 0%Z); (2%N, 2%Z); (3%N, 0%Z)]; rdy [(4%N, 1%Z)]; rdy []; blocked; blocked;
+             rdy []; rdy []; rdy []; rdy []] in
+  Forall delays_ok rs /\
+  map b_accepted (firstn 2 (snd (run false (new_pipe 2 3) rs))) = [[true; true; false]; [true]] /\
+  map b_pushed (snd (run false (new_pipe 2 3) rs)) = [[]; []; [1%N]; []; []; [2%N; 4%N]; []; []; []].
+Proof.
+  split; [|split].
+  - repeat constructor; cbn; lia.
+  - vm_compute. reflexivity.
+  - vm_compute. reflexivity.
+Qed.
